@@ -58,7 +58,7 @@ CLAIMED["C07"] = dict(
          "and the alignment loop of synchronize_files: the walk is strictly increasing in the alignment order; for replicas read in that "
          "order every path of the union is emitted exactly once, grouped with exactly the replicas containing it (all together, in replica "
          "order); hence `pff dup` output paths = union and a file with >= 3 copies and a byte-wise majority intact is restored (via the C06 "
-         "theorems). Tied to /repo by running `pff dup` on generated forests (report rows, output bytes, exit).",
+         "theorems). PATH_relpath_posix: the component list replicas are aligned on is directory names + file name for every replica root (model of relpath_posix over os.path). Tied to /repo by running `pff dup` on generated forests (report rows, output bytes, exit) and by the path correspondence.",
     design="§6 C07", technique="Lean 4 proof (order facts, mutual induction on trees, induction on the merge loop) + model/implementation correspondence",
     note="Trusted: Lean kernel and standard axioms; model validated by sampling; os.walk order after in-place sort and Python str/tuple "
          "comparison modelled; dir-vs-file clashes between replicas excluded as the property says.")
@@ -68,16 +68,16 @@ CLAIMED["C05"] = dict(
          "mtime rule, option switches, single-file filter): the rule per row stated outright; check on the generating tree reports nothing for "
          "every option set; after arbitrary mutations the reported paths (= errors file) are exactly the recorded files changed or removed, "
          "each option silencing its own attribute only - for every deterministic hash pair, under the explicit hypothesis that a changed "
-         "content does not collide under both hashes. Tied to /repo by real generate/mutate/check runs with csv-hostile names, relocated roots. csv layer (model of csv.writer/reader/DictReader with the tools' dialect and the repo's _csv_writer, tied to Python's csv by correspondence): every row of arbitrary strings is read back exactly (C05_csv_roundtrip), a header plus rows of as many fields are read back by DictReader under their field names (C05_db_roundtrip); C05_csv_cr_witness is the regression witness of the repaired carriage-return defect.",
+         "content does not collide under both hashes. Tied to /repo by real generate/mutate/check runs with csv-hostile names, relocated roots. csv layer (model of csv.writer/reader/DictReader with the tools' dialect and the repo's _csv_writer, tied to Python's csv by correspondence): every row of arbitrary strings is read back exactly (C05_csv_roundtrip), a header plus rows of as many fields are read back by DictReader under their field names (C05_db_roundtrip); C05_csv_cr_witness is the regression witness of the repaired carriage-return defect. Database FILE: C05_db_file_roundtrip (the text generated for any tree reads back as exactly the generated rows), C05_pipeline (check mode on the file = check mode on the rows, for any current tree), C05_pipeline_clean. Path layer (model of fullpath/path2unix/recwalk and the os.path functions under them, tied by correspondence on hostile path strings and real trees): what generation records for a tree is the '/'-joined relative components whatever root the tree is mounted at, and the file opened under any root for a recorded path is that file (PATH_gen_root_independent, PATH_mount_eq, PATH_lookup_relocated, PATH_relFS_nodup, PATH_single_file, PATH_abspath_good).",
     design="§6 C05", technique="Lean 4 proof (decision logic over list models) + model/implementation correspondence on real trees",
     note="Trusted: Lean kernel and standard axioms; model validated by sampling; hashlib as a parameter with an explicit no-collision "
-         "hypothesis; csv layer exercised with hostile names, not modelled; mtime rounding supplied by the harness.")
+         "hypothesis; csv and os.path layers modelled after CPython and tied by correspondence; the float text of modification times is an abstract identifier in the model; mtime rounding supplied by the harness.")
 CLAIMED["C16"] = dict(
     text="Kernel-checked theorems over a state-machine model of `pff hash --update` (removal pass, append pass, single-file filter) and "
          "arbitrary histories of add/delete/update ops: remove drops only rows of missing files and keeps order; append keeps the old "
          "database as a prefix and adds each absent file once; for every admissible history a final update -a -r yields exactly the rows "
          "(path, hashes, size, ext) of a fresh generation, each once (induction over the history with a consistency invariant); the "
-         "admissibility side condition is shown necessary by a kernel-checked witness. Tied to /repo by real step-by-step histories. csv layer: C05_csv_roundtrip, C05_db_roundtrip, C16_csv_append (appending rows = writing them all at once).",
+         "admissibility side condition is shown necessary by a kernel-checked witness. Tied to /repo by real step-by-step histories. csv layer: C05_csv_roundtrip, C05_db_roundtrip, C16_csv_append (appending rows = writing them all at once), C16_db_file_append (the database file after an update reads back as old rows then new rows); relocation / single-file input: PATH_gen_root_independent, PATH_single_file.",
     design="§6 C16", technique="Lean 4 proof (invariant by induction over operation histories) + model/implementation correspondence on real histories",
     note="Trusted: Lean kernel and standard axioms; model validated by sampling; admissibility hypothesis (no re-creation with other content "
          "while the stale row survives) is forced by the property's own clause; csv/os layers exercised not modelled.")
@@ -85,7 +85,7 @@ CLAIMED["C17"] = dict(
     text="Kernel-checked theorems over a model of --filescraping_recovery (md5/sha1 indexes with last-row-wins, recognition rule, last write "
          "wins): for every scraped list of contents (names/nesting are never read, so every renaming is covered) the output holds, at each "
          "recorded path whose content was found, exactly that content with the recorded mtime, and nothing for unknown/damaged files; complete "
-         "scrape => original tree. Under distinct recorded contents and no md5/sha1 collision (explicit). Tied to /repo by real recoveries. csv layer: C05_csv_roundtrip, C05_db_roundtrip (the database is read back exactly whatever characters the recorded paths hold).",
+         "scrape => original tree. Under distinct recorded contents and no md5/sha1 collision (explicit). Tied to /repo by real recoveries. csv layer: C05_csv_roundtrip, C05_db_roundtrip (the database is read back exactly whatever characters the recorded paths hold), C05_db_file_roundtrip; recorded paths are root-independent and pairwise distinct (PATH_gen_root_independent, PATH_relFS_nodup).",
     design="§6 C17", technique="Lean 4 proof (list/index reasoning) + model/implementation correspondence on real scraped folders",
     note="Trusted: Lean kernel and standard axioms; model validated by sampling; no-collision hypothesis explicit; copy2/utime/makedirs exercised.")
 
@@ -103,7 +103,7 @@ CLAIMED["C12"] = dict(
          "in-place LFSR), modelled separately, produce identical parity for every message, geometry and per-call k, and the parity passing "
          "the check is unique (so each codec verifies ecc produced by the others). The ecc-body determinism clause (moved / time-touched "
          "tree, codecs 1-3, index relative to the preamble) and cross-codec correction are decided by differential execution of the real "
-         "tools on every run; the raw .idx difference for a moved tree is known finding F20.",
+         "tools on every run; the raw .idx difference for a moved tree is known finding F20. Relocation clause: C12_recorded_root_independent - what generation records for a tree (hence the ecc body, a function of recorded paths, contents and parameters in the generation model) is the same for every root (model of relpath/path2unix over os.path, tied by correspondence).",
     design="§6 C12, §7 F20", technique="Lean 4 + Mathlib proof (uniqueness of the systematic parity) + differential execution of the tools",
     note="Trusted: as C11; body determinism is evidenced by differential runs (the tool model has no root/time/codec-dependent term), not by "
          "a theorem about the Python; F20 (absolute index offsets include the preamble) recorded as known finding.")
@@ -139,8 +139,10 @@ CLAIMED["C03"] = dict(
          "deterministic hash, every decoder (never consulted); exit 0. Uses the C10 layout-agreement theorems; the check clause for "
          "--no_fast_check is C11_accepts. Run level: C03_run_pristine - the ecc file AS GENERATED for any list of files, run through the "
          "model of the real loop: every file found, processed, uncorrupted, nothing written or skipped, counters (n,0,0,0,0), exit 0 (side "
-         "conditions: the format's documented limits); C03_clean_ops_A/B discharge the codec hypotheses for the facade. Relocated root, "
-         "single-file input, long/odd names decided by differential execution of the real tools each run.",
+         "conditions: the format's documented limits); C03_clean_ops_A/B discharge the codec hypotheses for the facade. Relocated root: "
+         "C03_run_relocated - the ecc file generated from a tree mounted at one root verifies clean against the same tree mounted at any other "
+         "root (path layer: model of fullpath/path2unix/recwalk over os.path, PATH_* theorems, tied by correspondence on hostile path strings "
+         "and real trees); single-file input PATH_single_file. Long/odd names also by differential execution of the real tools each run.",
     design="§6 C03", technique="Lean 4 proof (per-file logic, via layout agreement) + end-to-end differential execution of the tools",
     note=_ECC_NOTE)
 CLAIMED["C01"] = dict(
@@ -212,6 +214,9 @@ CLAIMED["C18"] = dict(
          "deterministic hash pair, any number of copies and any corruption: marked OK only if the written file matches the recorded "
          "hashes; a mismatch is KO and non-zero; a copy is used as correct only if it matches; whenever some copy matches or the vote "
          "restores the file, the output matches (a damaged first replica is never copied through); uncovered paths are never marked OK. "
+         "Whole run (alignment loop + per-group processing with the row of the group's own path + exit status): C18_run_ok_sound, "
+         "C18_run_uncovered, C18_run_paths, C18_run_restores - every report row marked OK is hash-correct for its own path at any depth, exit 0 "
+         "implies no KO and every covered path hash-correct. "
          "Tied to /repo by running `pff dup -d` on forests with files at depth 0-3 (outputs, report columns, exit).",
     design="§6 C18, §7 F3", technique="Lean 4 proof (decision logic over the group of copies) + model/implementation correspondence on real replica forests",
     note="Trusted: Lean kernel and standard axioms; model validated by sampling; hashlib as a parameter; depth-independence of the database "
